@@ -50,7 +50,7 @@ Proof.
   destruct (lru_find _ _) as [j|]; [|apply finalize_len]. destruct (j =? i); simpl; apply finalize_len.
 Qed.
 
-Lemma trim_cap0 c : cap c = 0 -> trim c = c.
+Lemma trim_cap0 c : cap c = 0%Z -> trim c = c.
 Proof. intros H. unfold trim. rewrite H. reflexivity. Qed.
 
 (* the Release step, in terms of rel_evict *)
@@ -222,8 +222,8 @@ Definition claims_d (s : M.st) (d : nat) : nat :=
 Record RI (s : M.st) (xl xb : nat -> nat) (pl pb : list nat) : Prop := mkRI {
   i_lc : Inv (M.lc s);
   i_bc : Inv (M.bc s);
-  i_capl : cap (M.lc s) = 0;
-  i_capb : cap (M.bc s) = 0;
+  i_capl : cap (M.lc s) = 0%Z;
+  i_capb : cap (M.bc s) = 0%Z;
   i_lenl : length (M.lobjs s) = length (ents (M.lc s));
   i_lenb : length (M.bobjs s) = length (ents (M.bc s));
   i_cl : forall v o, nth_error (M.lobjs s) v = Some o -> (M.l_closed o = true <-> (In v (log (M.lc s)) /\ ~ In v pl));
@@ -421,7 +421,7 @@ Qed.
 
 (* ---------- frames ---------- *)
 Definition same_ctl (s s' : M.st) : Prop :=
-  M.thrs s' = M.thrs s /\ M.uh s' = M.uh s /\ M.locks s' = M.locks s /\ M.kinds s' = M.kinds s.
+  M.thrs s' = M.thrs s /\ M.uh s' = M.uh s /\ M.locks s' = M.locks s /\ M.kinds s' = M.kinds s /\ M.bad s' = M.bad s.
 Lemma same_ctl_refl s : same_ctl s s. Proof. repeat split. Qed.
 Lemma same_ctl_trans a b c : same_ctl a b -> same_ctl b c -> same_ctl a c.
 Proof. unfold same_ctl. intuition congruence. Qed.
@@ -575,6 +575,9 @@ Qed.
 
 (* ---------- bookkeeping updates ---------- *)
 Lemma RI_locks s xl xb pl pb x : RI s xl xb pl pb -> RI (M.set_locks s x) xl xb pl pb.
+Proof. intros [A B C D E F G H I J K L MM N OO PP]. constructor; cbn; auto. Qed.
+
+Lemma RI_bad s xl xb pl pb x : RI s xl xb pl pb -> RI (M.set_bad s x) xl xb pl pb.
 Proof. intros [A B C D E F G H I J K L MM N OO PP]. constructor; cbn; auto. Qed.
 
 Definition b2n (b : bool) : nat := if b then 1 else 0.
@@ -863,7 +866,7 @@ Proof.
   split; [exact Hin|apply (i_dlt _ _ _ _ _ I); exact Hin].
 Qed.
 
-Lemma add_miss_spec c k : cap c = 0 -> lru_find (lru c) k = None ->
+Lemma add_miss_spec c k : cap c = 0%Z -> lru_find (lru c) k = None ->
   step c (Add k) = (add_new c k, Some (length (ents c), true)).
 Proof. intros Hc Hf. rewrite (step_add_new _ _ Hf). rewrite trim_cap0; [reflexivity|]. rewrite add_new_cap. exact Hc. Qed.
 
@@ -1217,15 +1220,17 @@ Qed.
 
 Theorem step_inv s o : RInv s -> RInv (fst (M.step s o)).
 Proof.
-  intros I. destruct o as [n|t ok|u|u|n|n|u|u ok]; cbn [M.step fst].
+  intros I. destruct o as [n|t ok|u|u|n|n|u|u r|u]; cbn [M.step fst].
   - apply RI_start. exact I.
   - apply tstep_inv. exact I.
   - apply release_inv. exact I.
   - apply release_inv. exact I.
   - apply (lc_evict_ok _ _ _ (Expire n) I eq_refl). discriminate.
   - apply (bc_evict_ok _ _ _ _ (Expire n) I eq_refl). discriminate.
-  - destruct (nth_error (M.uh s) u) as [[h r]|]; [|exact I]. destruct (M.layer_flags s h). exact I.
-  - destruct (nth_error (M.uh s) u) as [[h r]|]; [|exact I]. destruct (M.layer_flags s h). exact I.
+  - destruct (nth_error (M.uh s) u) as [[h r0]|]; [|exact I]. destruct (M.layer_flags s h). exact I.
+  - destruct (nth_error (M.uh s) u) as [[h r0]|]; [|exact I]. destruct (M.layer_flags s h).
+    destruct (_ && _); [|exact I]. destruct r, (M.blob_of s h); cbn [fst]; try exact I; apply RI_bad; exact I.
+  - destruct (nth_error (M.uh s) u) as [[h r0]|]; [|exact I]. destruct (M.blob_of s h); exact I.
 Qed.
 
 Theorem exec_inv os : forall s, RInv s -> RInv (M.exec s os).
@@ -1303,9 +1308,9 @@ Proof.
 Qed.
 
 Lemma held_use s u h : RInv s -> nth_error (M.uh s) u = Some (h, false) ->
-  M.step s (M.Use u) = (s, M.EUse false false) /\ M.step s (M.Refresh u true) = (s, M.ENone).
+  M.step s (M.Use u) = (s, M.EUse false false) /\ snd (M.step s (M.Refresh u M.RfOk)) = M.ENone.
 Proof.
-  intros I Hu. destruct (held_usable s u h I Hu) as [Hf _]. cbn. rewrite Hu, Hf. split; reflexivity.
+  intros I Hu. destruct (held_usable s u h I Hu) as [Hf _]. cbn. rewrite Hu, Hf. split; [reflexivity|]. cbn. destruct (M.blob_of s h); reflexivity.
 Qed.
 
 (* released_reclaimed, layer part: nobody holds a done-closure of layer v and it left the cache *)
@@ -1447,7 +1452,7 @@ Qed.
 
 Lemma cstep_inv s o : RInv s -> RInv (fst (M.cstep s o)).
 Proof.
-  intros I. destruct o as [n|t ok|u|u|n|n|u|u ok]; cbn [M.cstep].
+  intros I. destruct o as [n|t ok|u|u|n|n|u|u r|u]; cbn [M.cstep].
   - destruct (M.run_on 16 _ _ _) as [s2 e] eqn:E2. destruct (M.wake s2 _ e) as [s3 e'] eqn:E3. cbn [fst].
     replace s3 with (fst (M.wake s2 (length (M.thrs s)) e)) by (rewrite E3; reflexivity). apply wake_inv.
     replace s2 with (fst (M.run_on 16 (fst (M.step s (M.RStart n))) (length (M.thrs s)) M.ENone)) by (rewrite E2; reflexivity).
@@ -1462,7 +1467,8 @@ Proof.
   - apply (step_inv s (M.ExpireL n) I).
   - apply (step_inv s (M.ExpireB n) I).
   - pose proof (step_inv s (M.Use u) I) as H. destruct (M.step s (M.Use u)). exact H.
-  - pose proof (step_inv s (M.Refresh u ok) I) as H. destruct (M.step s (M.Refresh u ok)). exact H.
+  - pose proof (step_inv s (M.Refresh u r) I) as H. destruct (M.step s (M.Refresh u r)). exact H.
+  - pose proof (step_inv s (M.Probe u) I) as H. destruct (M.step s (M.Probe u)). exact H.
 Qed.
 
 Definition cexec (s : M.st) (os : list M.op) : M.st := fold_left (fun s o => fst (M.cstep s o)) os s.
